@@ -131,3 +131,56 @@ class swr_block_plan:
 
     def ghost_domain(self):
         return {"q": range(0, len(self.get("array").get("chunks")[0]))}
+
+
+def _ext_transfer_bytes(ex, st, args, kwargs, node):
+    """TransferBytes(lo, hi): the pair itself"""
+    from pyvc.spec import TupV
+    return TupV(list(args), "tuple")
+
+
+@contract(f"{SW}::SlidingWindowReduction.transfer_bytes", spec="r1", props=["C27"])
+class swr_transfer_bytes:
+    """transfer estimate of the native sliding-window reduction: 0 <= min <= max.  Uses the banded plan through its
+    contract (assumed here as the class invariant of `_block_plan`, proved by the unit `_block_plan[r1]`): the band a
+    block reads under min (band_offset + out_len elements) lies inside the band blocks b..e it fetches under max."""
+    params = {"self": "obj:SWR"}
+    result = "tup:real,real"
+    fields = {"SWR": {"array": "obj:Arr", "sliding_axis": "const", "window": "int", "_block_plan": "rows:4"},
+              "Arr": {"chunks": "tup:seq", "shape": "tup:int", "dtype": "obj:DType"}, "DType": {"itemsize": "int"}}
+    consts = {"self.sliding_axis": 0}
+    externals = {"TransferBytes": _ext_transfer_bytes}
+
+    def requires(self):
+        arr = self.get("array")
+        c = S.item(arr.get("chunks"), 0)
+        w = self.get("window")
+        plan = self.get("_block_plan")
+        n_out = S.ssum(c) - w + 1
+        rows = S.forall_idx(c, lambda q: swr_block_plan.row_ok(c, w, S.elem(plan, q), q, S.max_(0, n_out - S.prefix(c, q))))
+        return S.And(native_ok(c, w), S.slen(plan) == S.slen(c), rows, arr.get("dtype").get("itemsize") >= 0,
+                     S.item(arr.get("shape"), 0) == S.ssum(c))
+
+    def facts(self):
+        c = S.item(self.get("array").get("chunks"), 0)
+        return [("mono_prefix", c), ("prefix_nonneg", c)]
+
+    def ensures(result, self):
+        lo, hi = result.items
+        return {"0<=min<=max": S.And(0 <= lo.t, lo.t <= hi.t)}
+
+    def _hints(h, e):
+        # the band read under min lies inside the band blocks fetched under max (linear facts first, then the products)
+        c = h.chunks
+        band = S.prefix(c, e.e + 1) - S.prefix(c, e.b)
+        return {
+            "band-blocks-in-range": S.And(0 <= e.b, e.b <= e.e + 1, e.e + 1 <= S.slen(c)),
+            "band-blocks-sum": S.ssum(S.pyslice(c, e.b, e.e + 1)) == band,
+            "band-inside-band-blocks": e.band_offset + e.out_len <= band,
+            "middles-nonneg": S.And(e.b - e.i - 1 >= 0, e.cross >= 0),
+            "product-middles": (e.b - e.i - 1) * e.cross >= 0,
+            "product-band": S.And((e.band_offset + e.out_len) * e.cross >= 0,
+                                  (e.band_offset + e.out_len) * e.cross <= (S.pyat(c, e.i) + S.ssum(S.pyslice(c, e.b, e.e + 1))) * e.cross),
+        }
+
+    loops = {"for#1": Loop(invariant=lambda v, v0: {"ordered": S.And(0 <= v.lo, v.lo <= v.hi)}, hints=_hints)}
